@@ -29,6 +29,7 @@ type faultVec struct {
 	Limit int64  `json:"limit"` // RLIMIT_FSIZE in bytes (mode fsize)
 	Items int    `json:"items"`
 	Batch int    `json:"batch"`
+	EvLog bool   `json:"evlog,omitempty"` // also return the child's Pipeline event log
 	Real  string `json:"real,omitempty"` // "" = scripted producer; else a real renderer: mcu:<cells> | mco:<cells> | msu:<cells> | msq:<cells>
 	Dims  [3]int `json:"dims,omitempty"` // real uniform renders: bounding box size in cells (lattice = dims+2 points per axis)
 }
@@ -44,6 +45,7 @@ type faultObs struct {
 	WallMs    int      `json:"wallms"`
 	FileSize  int64    `json:"filesize"`
 	ChildExit int      `json:"childexit"`
+	EvLog     [][3]int `json:"evlog,omitempty"` // Pipeline events of the child (when requested)
 	Panicked  bool     `json:"panicked"` // the child died with a Go panic / runtime fault other than the deadlock report
 	Fault     string   `json:"fault"`
 }
@@ -126,6 +128,33 @@ func c12Child(args []string) error {
 			say(fmt.Sprintf("send %d", a))
 		}
 	}
+	var pg *gate
+	if os.Getenv("VERIF_C12_EVLOG") != "" {
+		// full Pipeline event log (as c11-record) plus the writer's error event (kind 8)
+		pg = newGate()
+		pg.open, pg.log = true, true
+		prevR, prevS := render.VerifHook, sdf.VerifHook
+		render.VerifHook = func(ev string, a, b, c int) {
+			prevR(ev, a, b, c)
+			if ev == "wr.err" {
+				pg.mu.Lock()
+				pg.rec(8, b, 0)
+				pg.mu.Unlock()
+				return
+			}
+			pg.hookRender(ev, a, b, c)
+		}
+		sdf.VerifHook = func(ev string, a, b int) {
+			prevS(ev, a, b)
+			pg.hookSdf(ev, a, b)
+		}
+		defer func() {
+			pg.mu.Lock()
+			b, _ := json.Marshal(pg.events)
+			pg.mu.Unlock()
+			say("EVLOG " + string(b))
+		}()
+	}
 	if mode == "fsize" {
 		signal.Ignore(syscall.SIGXFSZ)
 		lim := syscall.Rlimit{Cur: uint64(limit), Max: uint64(limit)}
@@ -192,6 +221,9 @@ func runFault(v faultVec, dir string, watchdog time.Duration) faultObs {
 	}
 	cmd := exec.Command(os.Args[0], cargs...)
 	cmd.Env = append(os.Environ(), "GOTRACEBACK=all")
+	if v.EvLog {
+		cmd.Env = append(cmd.Env, "VERIF_C12_EVLOG=1")
+	}
 	stdout, _ := cmd.StdoutPipe()
 	var stderr bytes.Buffer
 	cmd.Stderr = &stderr
@@ -217,6 +249,10 @@ func runFault(v faultVec, dir string, watchdog time.Duration) faultObs {
 			if !ok {
 				open = false
 				break
+			}
+			if strings.HasPrefix(l, "EVLOG ") {
+				json.Unmarshal([]byte(l[6:]), &o.EvLog)
+				continue
 			}
 			o.Events = append(o.Events, l)
 			if strings.HasPrefix(l, "caller.return") {
